@@ -12,9 +12,13 @@ def cases(rng, tier):
     ncase = 600 if tier == "quick" else 6000
     pts1 = [2 ** p - 1 for p in range(3, 11)] + [100, 256, 1000, 1024]
     pts2 = [3 * 2 ** p - 1 for p in range(1, 9)] + [100, 500, 1024]
+    # every admissible grid size: also the long grids (half grids of more than 512 / 1024 points), a few cases each
+    big1 = [2047, 4095, 2048, 5000]; big2 = [1535, 3071, 1534, 4000]
     for i in range(ncase):
         ty = 1 + i % 2
         points = rng.choice(pts1 if ty == 1 else pts2)
+        if i % 25 < 2:
+            points = rng.choice(big1 if ty == 1 else big2)
         tol = 10.0 ** (-rng.randint(8, 15))
         kind = rng.choice([1, 1, 1, 2])
         k = rng.randint(0, 20)
